@@ -187,3 +187,133 @@ Lemma sw_witness :
   map (fun o => match o with Some t => fmt_to_str t | None => [] end) (ss_shared sw_final) =
     [[105;100;58;50;45;56;44;110;97;109;101;58;49;45;50;48;59;49;58;49]].
 Proof. split; [vm_compute; reflexivity|]. split; vm_compute; reflexivity. Qed.
+
+(* ------------------------------------------------------------------ *)
+(* Field names are resolved EXACTLY (round 4; seeded change C13-m8 resolved them through a
+   lower-cased key in the setter only).  [get_field] compares code point by code point
+   ([str_eqb_eq]): whatever two distinct names have in common - letter case, Unicode
+   normalisation / case folding, blanks, one a prefix of the other, the same numeric value,
+   the spelling of a modifier - each resolves to its own field, and a spelling that is no
+   field name resolves to nothing. *)
+Lemma get_field_exact fs n f : get_field fs n = Some f -> In f fs /\ f_name f = n.
+Proof. intros H. split; [exact (get_field_in _ _ _ H)|exact (get_field_name _ _ _ H)]. Qed.
+
+Lemma get_field_none fs n : get_field fs n = None <-> ~ In n (map f_name fs).
+Proof.
+  induction fs as [|g r IH]; cbn [get_field map In]; [split; [intros _ []|reflexivity]|].
+  destruct (str_eqb (f_name g) n) eqn:E.
+  - apply str_eqb_eq in E. split; [discriminate|]. intros H. exfalso. apply H. left. exact E.
+  - split.
+    + intros H [Hn|Hn]; [|apply IH in H; exact (H Hn)].
+      subst n. rewrite str_eqb_refl in E. discriminate.
+    + intros H. apply IH. intros Hn. apply H. right. exact Hn.
+Qed.
+
+Lemma existsb_str_in x l : existsb (str_eqb x) l = true <-> In x l.
+Proof.
+  rewrite existsb_exists. split.
+  - intros (y & Hy & E). apply str_eqb_eq in E. subst y. exact Hy.
+  - intros H. exists x. split; [exact H|apply str_eqb_refl].
+Qed.
+
+Lemma get_field_own fs f : has_dup (map f_name fs) = false -> In f fs -> get_field fs (f_name f) = Some f.
+Proof.
+  induction fs as [|g r IH]; [intros _ []|]. cbn [map has_dup get_field]. intros Hd Hin.
+  apply orb_false_iff in Hd as [Hg Hr].
+  destruct Hin as [->|Hin]; [rewrite str_eqb_refl; reflexivity|].
+  destruct (str_eqb (f_name g) (f_name f)) eqn:E; [|exact (IH Hr Hin)].
+  apply str_eqb_eq in E. exfalso.
+  assert (existsb (str_eqb (f_name g)) (map f_name r) = true) as Hx; [|rewrite Hx in Hg; discriminate].
+  apply existsb_str_in. rewrite E. apply in_map. exact Hin.
+Qed.
+
+Definition shown_by_setter (p : pcol) : bool := negb (is_neg (p_min p) && is_neg (p_max p)).
+Definition shown_by_ctor (p : pcol) : bool := negb (is_neg (p_max p)).
+
+Lemma mk_column_name f m b mn mx c : mk_column f m b mn mx = Ok c -> c_name c = f_name f.
+Proof. unfold mk_column. destruct (mod_ok f m); [|discriminate]. intros H; inversion H; reflexivity. Qed.
+
+(* the columns the setter / the constructor build carry literally the names written in the
+   fmt string, each of them literally the name of a field *)
+Lemma setter_cols_names fs l : forall cs, setter_cols fs l = Ok cs ->
+  map c_name cs = map p_name (filter shown_by_setter l) /\ incl (map p_name l) (map f_name fs).
+Proof.
+  induction l as [|p r IH]; intros cs; cbn [setter_cols filter map].
+  - intros H; inversion H. split; [reflexivity|intros x []].
+  - destruct (get_field fs (p_name p)) as [f|] eqn:Eg; [|discriminate].
+    destruct (get_field_exact _ _ _ Eg) as [Hin Hnm].
+    assert (forall cs', setter_cols fs r = Ok cs' -> incl (map p_name (p :: r)) (map f_name fs)) as Hincl.
+    { intros cs' H x [<-|Hx]; [rewrite <- Hnm; apply in_map; exact Hin|exact (proj2 (IH _ H) x Hx)]. }
+    assert (shown_by_setter p = negb (is_neg (p_min p) && is_neg (p_max p))) as -> by reflexivity.
+    destruct (is_neg (p_min p) && is_neg (p_max p)); cbn [negb].
+    + intros H. split; [exact (proj1 (IH _ H))|exact (Hincl _ H)].
+    + destruct (mk_column f (p_mod p) (p_break p) (p_min p) (p_max p)) as [c|] eqn:Ec; [|discriminate].
+      destruct (setter_cols fs r) as [cs'|] eqn:Er; [|discriminate].
+      intros H; inversion H; subst cs. cbn [map]. split; [|exact (Hincl _ eq_refl)].
+      rewrite (mk_column_name _ _ _ _ _ _ Ec), Hnm. f_equal. exact (proj1 (IH _ eq_refl)).
+Qed.
+
+Lemma ctor_cols_names fs l : forall cs, ctor_cols fs l = Ok cs ->
+  map c_name cs = map p_name (filter shown_by_ctor l) /\
+  incl (map p_name (filter shown_by_ctor l)) (map f_name fs).
+Proof.
+  induction l as [|p r IH]; intros cs; cbn [ctor_cols filter map].
+  - intros H; inversion H. split; [reflexivity|intros x []].
+  - assert (shown_by_ctor p = negb (is_neg (p_max p))) as -> by reflexivity.
+    destruct (is_neg (p_max p)); cbn [negb]; [exact (IH cs)|].
+    destruct (get_field fs (p_name p)) as [f|] eqn:Eg; [|discriminate].
+    destruct (get_field_exact _ _ _ Eg) as [Hin Hnm].
+    destruct (mk_column f (p_mod p) (p_break p) (p_min p) (p_max p)) as [c|] eqn:Ec; [|discriminate].
+    destruct (ctor_cols fs r) as [cs'|] eqn:Er; [|discriminate].
+    intros H; inversion H; subst cs. cbn [map]. destruct (IH _ eq_refl) as [H1 H2]. split.
+    + rewrite (mk_column_name _ _ _ _ _ _ Ec), Hnm. f_equal. exact H1.
+    + intros x [<-|Hx]; [rewrite <- Hnm; apply in_map; exact Hin|exact (H2 x Hx)].
+Qed.
+
+Lemma clone_names cs : map c_name (map clone_col cs) = map c_name cs.
+Proof. rewrite map_map. apply map_ext. intros c. reflexivity. Qed.
+
+(* the round trip keeps the columns on their fields: same names in the same order *)
+Lemma roundtrip_names t : wf t = true ->
+  (exists t', set_fmt t (fmt_to_str t) = Ok t' /\ t_fields t' = t_fields t /\
+              map c_name (t_cols t') = map c_name (t_cols t)) /\
+  (t_cols t <> [] ->
+   exists t', ctor (t_fields t) (Some (fmt_to_str t)) None None = Ok t' /\ t_fields t' = t_fields t /\
+              map c_name (t_cols t') = map c_name (t_cols t)).
+Proof.
+  intros H. split.
+  - exists (reformatted t). split; [exact (set_fmt_roundtrip t H)|]. split; [reflexivity|apply clone_names].
+  - intros Hne. exists (rebuilt t). split; [exact (ctor_roundtrip t H Hne)|]. split; [reflexivity|apply clone_names].
+Qed.
+
+(* non-vacuity: eight fields whose names nearly collide - n / N, the NFC / NFD spellings of
+   e-acute, 'a b' / 'a  b' / 'ab' / 'a' - every field with values of its own length, so that a
+   column bound to a neighbour of its field would be handed another width *)
+Definition nn_fields : list field :=
+  [mkField [110] [] 1 999 1; mkField [78] [] 1 999 1; mkField [233] [] 1 999 1; mkField [101;769] [] 1 999 2;
+   mkField [97;32;98] [] 1 999 3; mkField [97;32;32;98] [] 1 999 4; mkField [97;98] [] 1 999 2; mkField [97] [] 1 999 1].
+Definition nn_rows : list row :=
+  [[mkCell 0 [5]; mkCell 0 [6]; mkCell 0 [7]; mkCell 0 [8]; mkCell 0 [9]; mkCell 0 [10]; mkCell 0 [11]; mkCell 0 [12]];
+   [mkCell 1 [5]; mkCell 1 [6]; mkCell 1 [7]; mkCell 1 [8]; mkCell 1 [9]; mkCell 1 [10]; mkCell 1 [11]; mkCell 1 [13]]].
+(* "N:3-12,a  b!,n:1-9,é,ab,a,é,a b" *)
+Definition nn_fmt : str :=
+  [78;58;51;45;49;50;44;97;32;32;98;33;44;110;58;49;45;57;44;101;769;44;97;98;44;97;44;233;44;97;32;98].
+Definition nn_names : list str := [[78]; [97;32;32;98]; [110]; [101;769]; [97;98]; [97]; [233]; [97;32;98]].
+Definition nn_fresh : tstate :=
+  match ctor nn_fields (Some nn_fmt) None None with Ok t => t | Err _ => mkT [] [] None None None end.
+Definition nn_printed : tstate := fst (print nn_rows nn_fresh).
+
+Lemma nn_witness :
+  fields_okb nn_fields = true /\ wf nn_printed = true /\
+  map c_name (t_cols nn_printed) = nn_names /\
+  snd (print nn_rows nn_printed) = Ok (mkView [6; 10; 5; 8; 11; 13; 7; 9] [LRec 0; LBreak; LRec 1] 0) /\
+  set_fmt nn_printed (fmt_to_str nn_printed) = Ok (reformatted nn_printed) /\
+  map c_name (t_cols (reformatted nn_printed)) = nn_names /\
+  snd (print nn_rows (reformatted nn_printed)) = snd (print nn_rows nn_printed) /\
+  snd (print nn_rows (rebuilt nn_printed)) = snd (print nn_rows nn_printed) /\
+  (* near-miss spellings are no fields: refused by the setter and by the constructor, ignored by remove_columns *)
+  set_fmt nn_printed [65;32;66] = Err ValueErr /\ set_fmt nn_printed [69;769] = Err ValueErr /\
+  set_fmt nn_printed [97;98;99] = Err ValueErr /\ ctor nn_fields (Some [65]) None None = Err AttrErr /\
+  remove_columns nn_printed [[65]; [97;9;98]; [201]] = nn_printed /\
+  map c_name (t_cols (remove_columns nn_printed [[110]; [97]])) = [[78]; [97;32;32;98]; [101;769]; [97;98]; [233]; [97;32;98]].
+Proof. vm_compute. repeat split; reflexivity. Qed.
